@@ -241,7 +241,7 @@ pub fn run(ctx: &Ctx) -> EvidenceMeta {
     };
     ctx.proptest(
         "generated",
-        ctx.n(5_000, 300_000),
+        ctx.n(30_000, 1_000_000),
         || {
             (
                 vec(frame(), 0..8),
